@@ -38,6 +38,10 @@ METHODS = {
     "symeig": ["exacteig", "custom_exacteig", "davidson"],
 }
 
+# methods only used by the leak check C19 (Newton builds a Jacobian operator per iteration: many evaluations, too slow for the
+# crash-index enumeration of C10)
+METHODS_C19_EXTRA = {"rootfinder": ["newton"], "equilibrium": ["newton"], "minimize": ["newton"]}
+
 XITORCH_CACHE_ATTRS = {"_paramnames_", "_unique_params_idxs", "_unique_params_maps", "_number_of_params"}
 
 
@@ -641,7 +645,8 @@ def build_problem(case, counter):
 # =============================================================================================== phases
 
 def run_phases(pb, phase, wseed=0):
-    """phase 0: forward; 1: + backward; 2: + graph-recording backward and a second backward.
+    """phase 0: forward; 1: + backward; 2: + graph-recording backward and a second backward; 3: graph-recording backward whose
+    graph is dropped without ever being differentiated (the second backward of phase 2 can break cycles that phase 3 leaves).
     Returns the list of detached results (None for absent gradients)."""
     g = gen.seeded(wseed)
     outs = pb.forward()
@@ -656,8 +661,8 @@ def run_phases(pb, phase, wseed=0):
         loss = (o * w).sum() if loss is None else loss + (o * w).sum()
     if not loss.requires_grad:
         return res
-    gs = torch.autograd.grad(loss, pb.wrt, create_graph=(phase == 2), allow_unused=True,
-                             retain_graph=(True if (pb.retain or phase == 2) else None))
+    gs = torch.autograd.grad(loss, pb.wrt, create_graph=(phase >= 2), allow_unused=True,
+                             retain_graph=(True if (pb.retain or phase >= 2) else None))
     res += [None if gi is None else gi.detach().clone() for gi in gs]
     pb.marks.append(pb.counter.n)
     if phase == 2:
